@@ -238,7 +238,7 @@ var recDeep = ev.New("TestPropDeepNesting", "documents nested 1-320 levels deep 
 func TestPropDeepNesting(t *testing.T) {
 	curRec = recDeep
 	defer func() { curRec = rec }()
-	ev.Check(t, 600, 12000, func(t *rapid.T) {
+	ev.Check(t, 600, 4000, func(t *rapid.T) {
 		dd := doc.GenDeep(t)
 		g := doc.NewG(t, doc.Config{})
 		for k, v := range dd.Canon {
@@ -324,7 +324,7 @@ var recSpell = ev.New("TestPropMatrixSpellings", "one command step whose matrix 
 func TestPropMatrixSpellings(t *testing.T) {
 	curRec = recSpell
 	defer func() { curRec = rec }()
-	ev.Check(t, 600, 12000, func(t *rapid.T) {
+	ev.Check(t, 600, 4000, func(t *rapid.T) {
 		n := rapid.IntRange(0, 64).Draw(t, "n")
 		if rapid.Bool().Draw(t, "round") {
 			n = rapid.SampledFrom([]int{8, 10, 16, 20, 25, 32, 50, 64}).Draw(t, "base") + rapid.IntRange(-1, 1).Draw(t, "off")
